@@ -302,11 +302,18 @@ class NPShim(Forward):
     def iscomplexobj(self, a):
         if _issym(a): return False
         return _np.iscomplexobj(a)
-    def allclose(self, a, b, *args, **k):
+    def allclose(self, a, b, rtol=1e-5, atol=1e-8, *args, **k):
         if _issym(a, b):
-            _hit('np.allclose(exact)')
             A, Bv = _np.broadcast_arrays(_obj(a), _obj(b))
-            conj = [T(x) == T(y) for x, y in zip(A.reshape(-1), Bv.reshape(-1))]
+            if CLOSE_MODEL[0] == 'tolerance':
+                # numpy's documented test |a - b| <= atol + rtol * |b| (tolerances as exact rationals of the float literals)
+                _hit('np.allclose(tolerance)')
+                ra, rr = z3.RealVal(repr(float(atol))), z3.RealVal(repr(float(rtol)))
+                ab = lambda t: z3.If(t >= 0, t, -t)
+                conj = [ab(T(x) - T(y)) <= ra + rr * ab(T(y)) for x, y in zip(A.reshape(-1), Bv.reshape(-1))]
+            else:
+                _hit('np.allclose(exact)')
+                conj = [T(x) == T(y) for x, y in zip(A.reshape(-1), Bv.reshape(-1))]
             return bool(SBool(z3.And(*conj))) if conj else True
         return _np.allclose(_defloat(a), _defloat(b), *args, **k)
     def isclose(self, a, b, *args, **k):
@@ -601,8 +608,12 @@ def default_table():
     }
 
 
+CLOSE_MODEL = ['exact']     # 'exact': allclose idealised as equality (default, listed assumption); 'tolerance': numpy's documented test
+
+
 def install(extra=None):
     """rebind `np` (and names given in extra: {module: {name: obj}}) in all loaded cuqi modules"""
+    CLOSE_MODEL[0] = 'exact'
     tab = default_table()
     for k, v in (extra or {}).items(): tab.setdefault(k, {}).update(v)
     extra = tab
